@@ -75,12 +75,12 @@ Proof.
   exact (drun_woken (length (f_dr (fu_dl (fu_dr s (f_dr s ++ f_dl s)) []))) (fu_dl (fu_dr s (f_dr s ++ f_dl s)) []) H).
 Qed.
 
-Lemma walk_woken : forall fuel this snap s s', Woken s -> f_walk env fuel this snap s = Some s' -> Woken s'.
+Lemma walk_woken : forall fuel bound this snap s s', Woken s -> f_walk env fuel bound this snap s = Some s' -> Woken s'.
 Proof.
-  induction fuel as [|f IH]; intros this snap s s' H Hw; [discriminate|].
+  induction fuel as [|f IH]; intros bound this snap s s' H Hw; [discriminate|].
   cbn [f_walk] in Hw. destruct this as [id|]; [|inversion Hw; subst; exact H].
   destruct (find_sgw id (f_sgws s)) as [w|]; [|discriminate].
-  eapply IH; [|exact Hw]. destruct (memz (g_sig w) snap); [|exact H].
+  eapply IH; [|exact Hw]. destruct (memz (g_sig w) snap && (g_id w <? bound)); [|exact H].
   apply actions_woken. exact H.
 Qed.
 
@@ -146,7 +146,7 @@ Qed.
 Theorem fallback_snapshot : forall fuel s,
   f_sigpipe false env fuel s =
   let s0 := f_arrivals (fu_pipe s (f_pipe s - 1)%nat) in
-  f_walk env fuel (match f_sgws s0 with [] => None | h :: _ => Some (g_id h) end) (f_pend s0) (fu_pend s0 []).
+  f_walk env fuel (f_next s0) (match f_sgws s0 with [] => None | h :: _ => Some (g_id h) end) (f_pend s0) (fu_pend s0 []).
 Proof. reflexivity. Qed.
 
 End Fallback.
